@@ -41,3 +41,76 @@ void __cxa_guard_release(long long* g) { *reinterpret_cast<char*>(g) = 1; }
 int __cxa_atexit(void (*)(void*), void*, void*) { return 0; }
 void __cxa_pure_virtual() { __CPROVER_assert(false, "pure virtual called"); __CPROVER_assume(false); }
 }
+
+// ---------------------------------------------------------------------------------------------------------------------
+// __dynamic_cast: model for classes with non-virtual (single or multiple) inheritance, walking the type_info objects that
+// clang emits (Itanium ABI layout).  Returns the unique public-base-or-derived subobject of type dst inside the complete
+// object, or null.  Virtual bases are reported as unsupported.
+namespace {
+struct ti_base { const void* vptr; const char* name; };
+struct ti_si : ti_base { const ti_base* base; };
+struct ti_vmi_base { const ti_base* base; long offset_flags; };
+struct ti_vmi : ti_base { unsigned flags; unsigned base_count; ti_vmi_base bases[1]; };
+} // namespace
+extern "C" {
+extern void* _ZTVN10__cxxabiv120__si_class_type_infoE[];
+extern void* _ZTVN10__cxxabiv121__vmi_class_type_infoE[];
+extern void* _ZTVN10__cxxabiv117__class_type_infoE[];
+}
+static bool cxxrt_is_si(const ti_base* t) { return t->vptr == static_cast<const void*>(&_ZTVN10__cxxabiv120__si_class_type_infoE[2]); }
+static bool cxxrt_is_vmi(const ti_base* t) { return t->vptr == static_cast<const void*>(&_ZTVN10__cxxabiv121__vmi_class_type_infoE[2]); }
+// follows single-base links only (iterative: bounded by the unwinding limit, reported if exceeded)
+static const char* cxxrt_chain(const ti_base* t, const ti_base* dst, const char* obj)
+{
+  for (int d = 0; d < 6; d++) {
+    if (t == dst)
+      return obj;
+    if (cxxrt_is_si(t))
+      t = static_cast<const ti_si*>(t)->base;
+    else if (cxxrt_is_vmi(t) && static_cast<const ti_vmi*>(t)->base_count == 1) {
+      const ti_vmi* v = static_cast<const ti_vmi*>(t);
+      __CPROVER_assert((v->bases[0].offset_flags & 1) == 0, "cxxrt: dynamic_cast through a virtual base is not modelled");
+      obj += v->bases[0].offset_flags >> 8;
+      t = v->bases[0].base;
+    } else
+      return nullptr;
+  }
+  __CPROVER_assert(false, "cxxrt: dynamic_cast inheritance chain deeper than the model");
+  return nullptr;
+}
+static const char* cxxrt_find(const ti_base* t, const ti_base* dst, const char* obj, int)
+{
+  for (int d = 0; d < 6; d++) {
+    if (t == dst)
+      return obj;
+    if (cxxrt_is_si(t))
+      t = static_cast<const ti_si*>(t)->base;
+    else if (cxxrt_is_vmi(t)) {
+      const ti_vmi* v = static_cast<const ti_vmi*>(t);
+      if (v->base_count == 1) {
+        __CPROVER_assert((v->bases[0].offset_flags & 1) == 0, "cxxrt: dynamic_cast through a virtual base is not modelled");
+        obj += v->bases[0].offset_flags >> 8;
+        t = v->bases[0].base;
+      } else { // several bases: each of them is searched along single-base links (enough for SimGrid's hierarchies)
+        for (unsigned i = 0; i < v->base_count && i < 3; i++) {
+          __CPROVER_assert((v->bases[i].offset_flags & 1) == 0, "cxxrt: dynamic_cast through a virtual base is not modelled");
+          const char* r = cxxrt_chain(v->bases[i].base, dst, obj + (v->bases[i].offset_flags >> 8));
+          if (r != nullptr)
+            return r;
+        }
+        return nullptr;
+      }
+    } else
+      return nullptr;
+  }
+  __CPROVER_assert(false, "cxxrt: dynamic_cast inheritance chain deeper than the model");
+  return nullptr;
+}
+extern "C" void* __dynamic_cast(const void* sub, const void* /*src*/, const void* dst, long /*src2dst*/)
+{
+  void* const* vptr   = *static_cast<void* const* const*>(sub);
+  long offset_to_top  = reinterpret_cast<long>(vptr[-2]);
+  const ti_base* whole_type = static_cast<const ti_base*>(vptr[-1]);
+  const char* whole   = static_cast<const char*>(sub) + offset_to_top;
+  return const_cast<char*>(cxxrt_find(whole_type, static_cast<const ti_base*>(dst), whole, 0));
+}
